@@ -48,7 +48,7 @@ func writeAt(path, content string) {
 // ---------- part 1 ----------
 
 func literalTemplates(full bool) (names []string, files map[string]string) {
-	toks := []string{`"`, `\`, `'`, "`", "é", "\x01", "\x7f", "%s", `\n`, "&amp;", " ", "😀", "{", "}", "$", "x"}
+	toks := []string{`"`, `\`, `'`, "`", "é", "\x01", "\x7f", "\a", "\b", "\v", "\f", "\x1b", "\x00", "%s", `\n`, "&amp;", " ", "😀", "{", "}", "$", "x"}
 	maxLen := 1
 	if full {
 		maxLen = 2
@@ -177,7 +177,7 @@ var (
 	elems  = []string{"div", "a", "span", "form"}
 	attrs  = []string{"title", "class", "style", "href", "onclick", "", "data-x", "action", "hx-on:click"}
 	texts  = []string{"hello", "bye", ""}
-	places = []string{"text", "attr2", "script", "none", "comment"}
+	places = []string{"text", "attr2", "script", "none", "root", "comment"}
 )
 
 func (p params) src() string {
@@ -210,7 +210,16 @@ func (p params) src() string {
 	if p.ws == 1 {
 		sep = " "
 	}
-	return "package main\n\ntempl T(x string, y string) {\n\t" + open.String() + strings.Join(kids, sep) + "</" + el + ">\n}\n"
+	elem := open.String() + strings.Join(kids, sep) + "</" + el + ">"
+	if places[p.place] == "root" {
+		// the second expression sits at the template root, before or after the element (body edge)
+		if p.order == 1 {
+			elem = "{ y }" + sep + elem
+		} else {
+			elem = elem + sep + "{ y }"
+		}
+	}
+	return "package main\n\ntempl T(x string, y string) {\n\t" + elem + "\n}\n"
 }
 
 func (p params) String() string {
@@ -232,7 +241,7 @@ type candidate struct {
 }
 
 func edits(full bool) (states, transitions int, cands []candidate) {
-	doms := []int{2, 6, 2, 4, 2, 1}
+	doms := []int{2, 6, 2, 5, 2, 1}
 	if full {
 		doms = []int{len(elems), len(attrs), len(texts), len(places), 2, 2}
 	}
